@@ -31,7 +31,7 @@ def run(ctx):
     groups = {}
     for i, c in enumerate(cases):
         groups.setdefault(json.dumps(c["vals"]), []).append(i)
-    # every second input is aggregated through a mark ($m.x after as(m)) instead of the current element: the
+    # every third input is aggregated through a mark ($m.x after as(m)) instead of the current element: the
     # specification's judgement is the same, the engine resolves the field through another path
     def via_mark(aggs):
         out = []
@@ -44,8 +44,13 @@ def run(ctx):
     reqs = []
     for n, (k, idxs) in enumerate(groups.items()):
         r = dict(i=n, vals=json.loads(k), agglists=[cases[i]["aggs"] for i in idxs])
-        if n % 2 == 1:
+        if n % 3 == 1:
             r["pre"] = [dict(op="as", name="m")]
+            r["agglists"] = [via_mark(a) for a in r["agglists"]]
+        elif n % 3 == 2:
+            # the rows reach aggregate() WITHOUT a current element (outNull over a label no edge has), the values
+            # are read through the mark: still one row per value, so the judgement is again the same
+            r["pre"] = [dict(op="as", name="m"), dict(op="outNull", labels=["nosuchlabel"])]
             r["agglists"] = [via_mark(a) for a in r["agglists"]]
         reqs.append(r)
     inp = ctx.write_ndjson("agg_in.ndjson", reqs)
